@@ -359,6 +359,9 @@ def run(ctx, load):
     check_container_hash(P, ctx)
     check_defaults(P, ctx)
     check_memswap(P, ctx)
+    # List: hash, copy and assign read the count, eq follows the links — the two must not drift apart
+    from .rules_c04 import check_list_count
+    check_list_count(P, ctx, rule='C10.count-matches-elements')
     # per-type length-exact hashes
     rule = 'C10.length-exact'
     fn = P.fn(P.slot('Type', 'Hash', 'hash'))
